@@ -44,7 +44,7 @@ func (c *IndividualListPage) WriteHTMLTo(w io.Writer) (int64, error) {
 	}
 
 	// Sort individuals by name.
-	sort.Slice(individuals, func(i, j int) bool {
+	sort.SliceStable(individuals, func(i, j int) bool {
 		left := individuals[i].Name().Format(gedcom.NameFormatIndex)
 		right := individuals[j].Name().Format(gedcom.NameFormatIndex)
 
